@@ -638,10 +638,18 @@ fn run_inner<P: Property>(args: &[String]) -> Result<i32, String> {
 
     // ---- violations: one report per distinct failure class, lowest job index first ----
     recs.sort_by(|a, b| (a.profile.as_str(), a.index).cmp(&(b.profile.as_str(), b.index)));
+    // among the kept instances of a class, start from the smallest scenario (ties: lowest
+    // profile/index) — deterministic, and the cheapest to minimise
     let mut by_key: BTreeMap<String, (VioRec, Violation)> = BTreeMap::new();
+    let mut size_of: BTreeMap<String, usize> = BTreeMap::new();
     for r in &recs {
+        let size = r.scenario.to_string().len();
         for v in &r.violations {
-            by_key.entry(v.key()).or_insert_with(|| (r.clone(), v.clone()));
+            let k = v.key();
+            if size_of.get(&k).map_or(true, |&s| size < s) {
+                size_of.insert(k.clone(), size);
+                by_key.insert(k, (r.clone(), v.clone()));
+            }
         }
     }
     let mut exit = 0;
